@@ -1081,6 +1081,7 @@ func main() {
 	phase("timed", time.Minute, func() { timed(env, rep) })
 	phase("timed-under-clock-delta", 2*time.Minute, func() { timedUnderDelta(env, rep) })
 	phase("callback-window", time.Minute, func() { callbackWindow(env, rep) })
+	phase("timed-arrival", time.Minute, func() { timedArrival(env, rep) })
 	phase("known-findings", 30*time.Second, func() { knownFindings(rep) })
 	_ = sort.Ints
 	rep.Write(env.Out)
@@ -1231,4 +1232,101 @@ func timedUnderDelta(env *vh.Env, rep *vh.Report) {
 			}
 		}
 	}
+}
+
+// ---------------------------------------------------------------- timed get with arrivals (model: timedGetQ, driver line TQ)
+
+// timedArrival: a timed get is waiting on an empty queue; another goroutine puts while it waits.
+// The model of the polling loop (`Queue.timedGetQ`, theorem `C11.timed_get_returns_arrival`) says what
+// must come back; the schedule "first poll empty, then the puts, then a poll" is expressed as rounds.
+func timedArrival(env *vh.Env, rep *vh.Report) {
+	type scen struct {
+		name   string
+		puts   []int  // elements put while the get is waiting (0 = nil)
+		rounds string // the same as rounds of the model, clock relative to a deadline of 1000
+		want   int    // element returned (0 = nothing)
+		left   int    // Size() afterwards
+	}
+	scens := []scen{
+		{"one element arrives", []int{7}, "-@100|p7@200|-@1001", 7, 0},
+		{"nil then an element arrive", []int{0, 5}, "-@100|p0,p5@200|-@1001", 5, 0},
+		{"two elements arrive", []int{3, 4}, "-@100|p3,p4@200|-@1001", 3, 1},
+		{"nothing arrives", nil, "-@100|-@500|-@1001", 0, 0},
+	}
+	var lines []string
+	for _, sc := range scens {
+		lines = append(lines, "TQ 1000 0 "+sc.rounds)
+	}
+	outs, err := vh.RunDriver(env.Driver, lines)
+	if err != nil {
+		vh.Die("driver: %v", err)
+	}
+	for i, sc := range scens {
+		wantModel := fmt.Sprintf("got %d ", sc.want)
+		if sc.want == 0 {
+			wantModel = "timeout 1001 "
+		}
+		if !strings.HasPrefix(outs[i], wantModel) || !strings.HasSuffix(outs[i], fmt.Sprintf("| %s/0", listN(sc.left, sc.puts))) {
+			rep.Fail("correspondence", "timedGetQ:model", "the polling-loop model answers differently from what the harness scenario expects",
+				map[string]interface{}{"line": lines[i], "driver": outs[i], "scenario": sc.name})
+		}
+		for _, dbl := range []bool{false, true} {
+			timeout := 250
+			var getT func(int) interface{}
+			var put func(interface{}) bool
+			var size func() int
+			if dbl {
+				d := queue.NewRequestDoubleQueue(0, 0)
+				getT, put, size = d.GetTimeout, d.Put1, d.Size
+			} else {
+				q := queue.NewRequestQueue(0)
+				getT, put, size = q.GetTimeout, q.Put, q.Size
+			}
+			var v interface{}
+			before := dateutil.SystemNow()
+			done := make(chan vh.Outcome, 1)
+			go func() {
+				done <- vh.GuardTimeout(time.Duration(timeout)*time.Millisecond+5*time.Second, func() { v = getT(timeout) })
+			}()
+			time.Sleep(25 * time.Millisecond) // the first poll has found the queue empty
+			for _, x := range sc.puts {
+				put(elem(x))
+			}
+			out := <-done
+			after := dateutil.SystemNow()
+			name := qname(dbl)
+			rep.Case(fmt.Sprintf("timed-arrival %s %s", name, sc.name), true)
+			rep.Count("timed:arrival-scenarios")
+			replay := map[string]interface{}{"type": name, "scenario": sc.name, "timeout_ms": timeout, "puts_while_waiting": sc.puts,
+				"returned": unelem(v), "model": outs[i], "how": "GetTimeout(250) on an empty queue in one goroutine; 25 ms later the puts; compare the result with Queue.timedGetQ"}
+			sz := -1
+			vh.GuardTimeout(2*time.Second, func() { sz = size() })
+			switch {
+			case !out.OK():
+				rep.Fail("property", name+".GetTimeout:"+out.String(), "GetTimeout did not return although "+sc.name, replay)
+			case unelem(v) != sc.want:
+				key := name + ".GetTimeout:missed-arrival"
+				if sc.want == 0 {
+					key = name + ".GetTimeout:phantom-element"
+				}
+				rep.Fail("property", key, fmt.Sprintf("%s: GetTimeout(%d) returned %d, the polling-loop model returns %d", sc.name, timeout, unelem(v), sc.want), replay)
+			case sz != sc.left:
+				rep.Fail("property", name+".GetTimeout:conservation", fmt.Sprintf("%s: Size() = %d afterwards, the model leaves %d", sc.name, sz, sc.left), replay)
+			case sc.want == 0 && int(after-before) < timeout:
+				rep.Fail("property", name+".GetTimeout:returned-early", fmt.Sprintf("returned empty-handed after %d ms of %d", after-before, timeout), replay)
+			}
+		}
+	}
+}
+
+// listN renders what the model leaves in the queue: the last `n` of the non-swallowed puts
+func listN(n int, puts []int) string {
+	if n == 0 {
+		return "-"
+	}
+	var xs []string
+	for _, x := range puts[len(puts)-n:] {
+		xs = append(xs, strconv.Itoa(x))
+	}
+	return strings.Join(xs, ",")
 }
